@@ -30,6 +30,39 @@ CLAIMED = {
         "generated, volumes are their exact cubes, consistency re-checked in Coq); binary64 vs exact rationals at 1e-9 x magnitude; "
         "g++ -O2 build of the engine; the Python harness.",
         "DESIGN.md section 6 / C01"),
+    "C02": (
+        "Coq proof of exact conservation (Euler: flux antisymmetry + neighbour involution, graph edge-slot pairing; stochastic: every event with any multiplicity) + trajectory correspondence on all three engines",
+        "Theorems (Props/C02.v, closed under the global context; any numbers of species/reactions/cells, every grid w,h,d >= 1 with all "
+        "boundary mixes, every graph incl. self-loops and parallel edges, heterogeneous volumes): the diffusion terms of the engine's "
+        "derivative sum to zero over the cells; any integer combination annihilated by every column of sto and free of chemostated species "
+        "has exactly the same total after one Euler step and hence after any number of steps (exact in Qc; the binary64 engine is compared "
+        "at 1e-9 x magnitude); with no reaction each unflagged species' total is invariant; for the stochastic engines, applying any "
+        "reaction firing or molecule move with any multiplicity (so whatever the Poisson sampler returns, whatever channel is drawn), and "
+        "any sequence of them, keeps every such total exactly. Tied to the code on every run: trajectories of the freshly compiled Euler, "
+        "tau-leap and Gillespie engines on random grids and graphs (four sampling policies, chemostat maps, time step tuned so that "
+        "channels fire), laws = a basis of the integer left null space computed by the harness and re-validated in Coq against the "
+        "model's sto table; totals compared in whole molecules (exactly) for the stochastic engines.",
+        "Trusted: Coq kernel + VM; the hand-written models of Compute_dxdt / Apply_dxdt / ApplyReaction / ApplyDiffusion / Apply_nevt "
+        "(events as (channel, count) lists; which events the engine draws is C07's subject) tied by sampled correspondence: 1500 "
+        "trajectories quick (all screened by the property oracle in Python, 150 plus every objection judged in Coq), 30000 thorough; runs "
+        "that hang or overflow (tau-leap overshoot to negative counts, see F8) are discarded and counted; binary64 rounding for Euler; "
+        "g++ -O2; the Python harness.",
+        "DESIGN.md section 6 / C02"),
+    "C03": (
+        "Coq proof that flagged entries are fixed points of the Euler step and of every stochastic event, that unflagged entries follow the rate law, and of the flag's transposed index + correspondence on kinetics, dxdtf, apply_reaction and all engines",
+        "Theorems (Props/C03.v, closed under the global context): a flagged (cell, species) entry has zero derivative, is unchanged by an "
+        "Euler step and by any number of them, by any reaction firing or molecule move with any multiplicity and any sequence of them; an "
+        "unflagged entry moves by dt x rate_law, where rate_law does not mention the flag (a frozen species still reacts and diffuses); a "
+        "firing changes exactly the unflagged entries of its own cell by n x (products - substrates), a move takes n from an unflagged "
+        "source and gives n to an unflagged destination; the species-major flag index s*ncells+c becomes c*nspecies+s after the engine's "
+        "transposition. Tied to the code on every run: compute_dstatedt with and without chemostats, make_dxdtf, 1-2 Euler steps (verdict "
+        "accept_C01 under chemostat maps drawn as subsets / whole species / whole cells / only species of index >= 1), every sample of "
+        "trajectories of the three engines on grid and graph (flagged entries bitwise constant), RDSystem.apply_reaction by index / label / "
+        "object on the system state, an explicit state and map, and with update.",
+        "Trusted: Coq kernel + VM; hand-written models tied by sampled correspondence (110 + 900 + 150 cases quick; trajectories all "
+        "screened by the property oracle, 150 plus objections judged in Coq); which events the stochastic engines draw is C07's subject; "
+        "binary64 vs exact at 1e-9 x magnitude; g++ -O2; the Python harness.",
+        "DESIGN.md section 6 / C03"),
     "C05": (
         "Coq proof that the operator model is a homomorphism into SI arithmetic (induction over expression trees) + dispatch-path correspondence",
         "Theorems (Props/C05.v, closed under the global context): for every expression tree over numbers, quantities and arrays with "
